@@ -14,23 +14,23 @@ from vlib import coq
 from vlib.ctx import REPO, VERIF
 
 COMPONENT = 'Raft/{Types,Node,Net,Obs}.v <-> pysyncobj/syncobj.py + serializer.py'
-GENS = ('random_trace', 'ro_trace', 'member_trace', 'scenario')
+GENS = ('random_trace', 'ro_trace', 'member_trace', 'journal_trace', 'killpoint_trace', 'scenario')
 
 
 def plan(ctx):
     """list of (generator, seed, n_events)"""
     base = (ctx.seed * 7919) % 1000000
     if ctx.quick:
-        n = {'random_trace': 120, 'ro_trace': 36, 'member_trace': 48}
+        n = {'random_trace': 110, 'ro_trace': 32, 'member_trace': 44, 'journal_trace': 36, 'killpoint_trace': 36}
         ev = 260
     else:
-        n = {'random_trace': 2400, 'ro_trace': 500, 'member_trace': 700}
+        n = {'random_trace': 2400, 'ro_trace': 500, 'member_trace': 700, 'journal_trace': 600, 'killpoint_trace': 600}
         ev = 500
     out = []
     from harness import raft_scenarios
     for name in raft_scenarios.NAMES:
         out.append(('scenario', name, 0))
-    for gname in ('random_trace', 'ro_trace', 'member_trace'):
+    for gname in ('random_trace', 'ro_trace', 'member_trace', 'journal_trace', 'killpoint_trace'):
         for i in range(n[gname]):
             out.append((gname, base + i, ev))
     return out
@@ -77,8 +77,13 @@ def _worker(args):
         t0 = time.time()
         try:
             rec, mon = run_one(item, wd)
-            d, c = RC.v_case(name, rec.cfg, rec.mevents, rec.digests)
+            if rec.model_ok:
+                d, c = RC.v_case(name, rec.cfg, rec.mevents, rec.digests)
+            else:
+                d, c = None, None          # kills inside a step: implementation under the monitors only
             out.append({'item': list(item), 'name': name, 'defs': d, 'call': c, 'kinds': rec.kinds,
+                        'model': bool(rec.model_ok), 'attributed': [list(a) for a in mon.attributed[:30]],
+                        'kill_points': [k.get('next_primitive') + ('/in_delete_to' if k.get('in_delete_to') else '') for k in mon.kill_infos],
                         'records': mon.records[:20], 'after_memory_loss': len(mon.after_memory_loss),
                         'stats': mon.stats, 'events': len(rec.mevents), 'triggers': mon.trigger,
                         'cfg': dict((k, v) for k, v in rec.cfg.items()), 'wall': time.time() - t0})
@@ -110,7 +115,7 @@ def raft_run(ctx, note=True):
     with mp.get_context('fork').Pool(len(parts)) as pool:
         traces = [r for part in pool.map(_worker, parts) for r in part]
     t_impl = time.time() - t0
-    good = [t for t in traces if 'crash' not in t]
+    good = [t for t in traces if 'crash' not in t and t.get('model')]
     files, groups = [], []
     per = 8
     for i in range(0, len(good), per):
@@ -159,9 +164,27 @@ def account(ctx, res, props):
             st['divergences'] += 1
             st.setdefault('first_divergences', []).append({'item': t['item'], 'harness_crash': t['crash'][-800:]})
             continue
-        st['cases'] += 1
-        st['steps'] += t['events']
-        if t.get('divergence') is not None:
+        if t.get('model'):
+            st['cases'] += 1
+            st['steps'] += t['events']
+        else:
+            ctx.monitor['monitor_only_traces'] = ctx.monitor.get('monitor_only_traces', 0) + 1
+            for kp in t.get('kill_points', []):
+                ctx.count(COMPONENT, 'kill_before:' + kp)
+        for a in t.get('attributed', []):
+            fid, prop = a[0], a[1]
+            if prop in props:
+                listed = [f for f in ctx.known_for() if f['id'] == fid]
+                if listed:
+                    ctx.known_finding(listed[0])
+                    ctx.monitor['known_finding_records'] = ctx.monitor.get('known_finding_records', 0) + 1
+                else:
+                    n_rec += 1
+                    if n_rec <= 3:
+                        ctx.violation('%s monitor on the implementation: %s (matches the signature of %s, which is not a listed known finding of %s)'
+                                      % (prop, a[2], fid, ctx.pid),
+                                      {'kind': 'raft_trace', 'item': t['item'], 'step': a[3], 'record': a}, found_input=True)
+        if t.get('model') and t.get('divergence') is not None:
             st['divergences'] += 1
             if len(st.setdefault('first_divergences', [])) < 5:
                 st['first_divergences'].append({'item': t['item'], 'first_diverging_step': t['divergence'],
@@ -207,7 +230,7 @@ def search(ctx, props, n=None):
     base = (ctx.seed * 104729 + 11) % 1000000
     items = []
     for i in range(n):
-        items.append((('random_trace', 'ro_trace', 'member_trace')[i % 3], base + i, 300))
+        items.append((('random_trace', 'ro_trace', 'member_trace', 'journal_trace', 'killpoint_trace')[i % 5], base + i, 300))
     nproc = int(os.environ.get('NPROC', '14'))
     workroot = os.path.join(ctx.work, 'search')
     os.makedirs(workroot, exist_ok=True)
